@@ -1672,9 +1672,9 @@ class Message(ABC):
                     )
                 elif sub_cls == timedelta:
                     value = (
-                        [timedelta(seconds=float(item[:-1])) for item in value]
+                        [_Duration.delta_from_json(item) for item in value]
                         if isinstance(value, list)
-                        else timedelta(seconds=float(value[:-1]))
+                        else _Duration.delta_from_json(value)
                     )
                 elif not meta.wraps:
                     value = (
@@ -2090,11 +2090,21 @@ class _Duration(Duration):
 
     @staticmethod
     def delta_to_json(delta: timedelta) -> str:
-        parts = str(delta.total_seconds()).split(".")
-        if len(parts) > 1:
-            while len(parts[1]) not in (3, 6, 9):
-                parts[1] = f"{parts[1]}0"
-        return f"{'.'.join(parts)}s"
+        # Integer arithmetic: total_seconds() is a float, which prints small
+        # values in exponent notation and loses microseconds on large spans.
+        total_us = delta // timedelta(microseconds=1)
+        sign = "-" if total_us < 0 else ""
+        seconds, us = divmod(abs(total_us), 10**6)
+        if us % 1000 == 0:
+            return f"{sign}{seconds}.{us // 1000:03d}s"
+        return f"{sign}{seconds}.{us:06d}s"
+
+    @staticmethod
+    def delta_from_json(value: str) -> timedelta:
+        seconds, _, fraction = value[:-1].partition(".")
+        negative = seconds.startswith("-")
+        total_us = abs(int(seconds)) * 10**6 + int((fraction + "000000")[:6])
+        return timedelta(microseconds=-total_us if negative else total_us)
 
 
 class _Timestamp(Timestamp):
